@@ -118,6 +118,16 @@ def run(ctx):
             "unknown-member arm keeps the stale member id", where(rae, rae.node), "rejoin with an id the coordinator rejects, for ever")
     ogl = prog.method(gci, "on_group_leave")
     stc = ctx.func(GROUP + ".stop_consumers")
+    cstc = ctx.cfg(stc)
+    for n in cstc.nodes:
+        for x in n.calls():
+            if call_name(x) == "stop" and call_recv(x) in {unparse(y.target) for y in ast.walk(stc.node) if isinstance(y, ast.For)}:
+                v = call_recv(x)
+                deps = sorted({norm(t.stmt.test) for t, lab in cstc.control_deps_transitive(n.id) if t.kind == "test"} - {"self.consumers"})
+                r.check(deps in ([], ["%s._start_d" % v], ["%s._start_d is not None" % v]), "%s#stops-every-started-consumer" % stc.qname,
+                        "a consumer is stopped only under %s; every consumer whose start Deferred exists must be stopped" % deps, where(stc, x),
+                        "a consumer whose start Deferred already fired with an error (rejected commit) keeps running after eviction: it "
+                        "fetches and commits with the stale generation")
     r.check(ogl.cls is gci and any(prog.resolve_call(ogl, x) is stc for x in calls_in(ogl)) and any(
         call_name(x) == "stop" and call_recv(x) in {unparse(y.target) for y in ast.walk(stc.node) if isinstance(y, ast.For)}
         for x in calls_in(stc)), "%s#forcible-stop" % ogl.qname,
@@ -268,6 +278,10 @@ MUTANTS = [
      "expect": "C16.R3"},
     {"id": "unknown-member-keeps-id", "file": "_group.py", "old": "            self.on_group_leave()\n            self.member_id = \"\"\n",
      "new": "            self.on_group_leave()\n", "expect": "C16.R3"},
+    {"id": "stop-skips-fired-consumers", "file": "_group.py",
+     "old": "                    try:\n                        if consumer._start_d:\n                            consumer.stop()\n                    except Exception as e2:\n                        log.error(\n                            \"shutdown_consumers stop error in consumer %s: %s\",\n                            consumer,\n                            e2,\n                        )\n            log.debug(\"stop_consumers",
+     "new": "                    try:\n                        if consumer._start_d and not consumer._start_d.called:\n                            consumer.stop()\n                    except Exception as e2:\n                        log.error(\n                            \"shutdown_consumers stop error in consumer %s: %s\",\n                            consumer,\n                            e2,\n                        )\n            log.debug(\"stop_consumers",
+     "expect": "C16.R3", "note": "seeded C16-1"},
     {"id": "concurrent-join", "file": "_group.py",
      "old": "        if self._rejoin_d:\n            # XXX: This should throw, not silently ignore.\n            log.debug(\"join_and_sync: rejoin in progress\")\n            return\n",
      "new": "", "expect": "C16.R4"},
